@@ -20,6 +20,7 @@ import (
 	"fmt"
 	"hash"
 	"runtime/debug"
+	"runtime/metrics"
 	"strings"
 	"syscall"
 
@@ -83,7 +84,10 @@ func exec(line string) string {
 	if err != nil {
 		return "bad-op"
 	}
-	stream := o.Hex("stream")
+	// the received stream sits in a guarded buffer: a reader must not write into what it reads from (`mut=`);
+	// results are copied out by the hook before the next call (readCipherPacket returns its internal buffer)
+	ar := hx.NewArena()
+	stream := ar.In("stream", o.Hex("stream"))
 	br := bytes.NewReader(stream)
 	bufr := bufio.NewReaderSize(br, 4096)
 	var rs []string
@@ -104,7 +108,25 @@ func exec(line string) string {
 	if len(rs) > 0 {
 		r = strings.Join(rs, ",")
 	}
-	return fmt.Sprintf("r=%s;rseq=%d", r, seq)
+	return fmt.Sprintf("r=%s;rseq=%d;mut=%s", r, seq, ar.Check())
+}
+
+// execTimed: an op during which more than 32 MiB were allocated (a reader that lost its length bound asks for up
+// to 4 GiB) is followed by a forced collection that hands the memory back, so such buffers never pile up.
+var allocSample = []metrics.Sample{{Name: "/gc/heap/allocs:bytes"}}
+
+func allocated() uint64 {
+	metrics.Read(allocSample)
+	return allocSample[0].Value.Uint64()
+}
+
+func execTimed(line string) string {
+	before := allocated()
+	out := hx.Catch(func() string { return exec(line) })
+	if allocated()-before > 32<<20 {
+		debug.FreeOSMemory()
+	}
+	return out
 }
 
 // ---------------------------------------------------------------- generators
@@ -595,9 +617,10 @@ func gen(g *hx.Gen) {
 func main() {
 	// backstop: a reader that lost a bound may try to allocate without limit; cap the address space so that such a
 	// process dies at once instead of driving the machine into swap (one legitimate 4 GiB request still fits).
-	// The soft memory limit makes the collector release one oversized buffer before the next is requested.
+	// exec releases memory after any op that allocated a lot (see execTimed), so one oversized buffer is gone before the
+	// next is requested.
 	lim := syscall.Rlimit{Cur: 14 << 30, Max: 14 << 30}
 	syscall.Setrlimit(syscall.RLIMIT_AS, &lim)
-	debug.SetMemoryLimit(512 << 20)
-	hx.Main(hx.Harness{Gen: gen, Exec: exec, Serial: true})
+	debug.SetGCPercent(50)
+	hx.Main(hx.Harness{Gen: gen, Exec: execTimed, Serial: true})
 }
